@@ -34,6 +34,8 @@ theorem normalizedB_iff (c : Charset) : normalizedB c = true ↔ Normalized c :=
       obtain ⟨lo2, hi2⟩ := q
       simp [normalizedB, Normalized, ih, and_assoc]
 
+instance (c : Charset) : Decidable (Normalized c) := decidable_of_iff _ (normalizedB_iff c)
+
 theorem withinB_iff (lo hi : Int) (c : Charset) : withinB lo hi c = true ↔ Within lo hi c := by
   simp [withinB, Within]
 
